@@ -62,6 +62,17 @@ impl Scratch {
         std::env::set_current_dir(&dir).expect("chdir into scratch");
         Scratch { dir }
     }
+    /// a second (third, ...) scratch directory next to the first; does not change the cwd
+    pub fn open(out: &str, name: &str) -> Self {
+        let dir = PathBuf::from(out).join(name);
+        let _ = std::fs::remove_dir_all(&dir);
+        std::fs::create_dir_all(dir.join("pgcopy")).expect("scratch dir");
+        Scratch { dir }
+    }
+    /// make this directory the process's working directory
+    pub fn enter(&self) {
+        std::env::set_current_dir(&self.dir).expect("chdir into scratch");
+    }
     pub fn clean(&self) {
         for e in std::fs::read_dir(self.dir.join("pgcopy")).expect("read scratch") {
             let _ = std::fs::remove_file(e.expect("entry").path());
@@ -174,6 +185,29 @@ pub fn any_isomorphism(rng: &mut Rng, street: Street) -> Isomorphism {
     let public = rng.cards(n, full & !pocket);
     Isomorphism::from(Observation::from((Hand::from(pocket), Hand::from(public))))
 }
+
+/// a transitions table with about `n` (from, into) rows, `from` drawn from `nfrom` abstractions
+pub fn any_decomp(rng: &mut Rng, street: Street, n: usize, nfrom: u64) -> BTreeMap<Abstraction, Histogram> {
+    let next = match street {
+        Street::Pref => Street::Flop,
+        Street::Flop => Street::Turn,
+        _ => Street::Rive,
+    };
+    let mut m = BTreeMap::new();
+    let mut total = 0;
+    while total < n {
+        let from = Abstraction::from((street, rng.below(nfrom) as usize));
+        let k = 1 + rng.below(6) as usize;
+        let support: Vec<Abstraction> = (0..k).map(|_| Abstraction::from((next, rng.below(128) as usize))).collect();
+        let draws = 1 + rng.below(40);
+        let v: Vec<Abstraction> = (0..draws).map(|_| support[rng.below(k as u64) as usize]).collect();
+        let h = Histogram::from(v);
+        total += h.n();
+        m.insert(from, h);
+    }
+    m
+}
+
 
 // ------------------------------------------------------------------ tables and their code forms
 
